@@ -60,6 +60,25 @@ def run(chk, ctx):
            'may raise: %r; short-buffer result: %r' %
            (sorted({o.exc.type_name for o in raises}),
             [T.show(o.value) for o in fail]), site=site)
+    # the peek answers from the bytes it is given: a memoising wrapper on
+    # its path hashes the header view (a bytearray / writable memoryview
+    # receive buffer is unhashable: TypeError / ValueError instead of an
+    # answer) and keeps every header seen
+    from .. import models
+    pfuncs = {fp.qualname: fp}
+    for short, _c, _s, _d in it.calls:
+        f_ = prog.functions.get('pamqp.' + short.split(' ')[0])
+        if f_ is not None:
+            pfuncs[f_.qualname] = f_
+    caching, unknown_deco = models.wrappers(prog, pfuncs.values())
+    chk.ob('C20.S', 'frame.frame_parts path wrappers', not caching,
+           '%d function(s) on the peek path, none memoised' % len(pfuncs)
+           if not caching else 'memoised: %s (the argument is hashed: a '
+           'buffer view that is not hashable makes the peek raise)' %
+           caching, site=site)
+    if unknown_deco:
+        chk.undecide('C20.S', 'decorators without a model',
+                     '; '.join(unknown_deco[:3]))
     # encoder envelope
     fm = prog.function('frame._marshal')
     it2, outs2 = codec.run(prog, fm, [Sym('param', 'frame_type'),
@@ -128,8 +147,8 @@ def run(chk, ctx):
     chk.ob('C20.D', 'frame.unmarshal uses frame_parts', uses_fp,
            'frame_parts is called from frame.unmarshal',
            site='pamqp/frame.py::unmarshal')
-    if f.header is None:
-        raise AnalysisError('no header read found in frame.unmarshal')
+    if not F.header_or_violation(chk, 'C20.D', f):
+        return
     size_t = f.hfield(2)
     produced = {'method': (4, None), 'header': (14, None),
                 'body': (0, None), 'heartbeat': (0, 0)}
@@ -151,5 +170,16 @@ def run(chk, ctx):
                'decoder accepts payload sizes [%s, %s]; the encoder emits '
                'sizes from %d' % (a_lo, a_hi, lo),
                detail={'consumed': T.show(r.n)[:60]},
+               site='pamqp/frame.py::unmarshal')
+        # the size + 1 octets read after the header are decoded as they
+        # were sent (an edited payload is a different frame: encoder output
+        # whose bytes match the edit is refused or shortened)
+        from .c06 import payload_edits
+        edits = payload_edits(f, r, f.data)
+        chk.ob('C20.D', '%s frames payload' % kind, not edits,
+               'the payload decoded is the slice the size field names'
+               if not edits else 'the payload goes through %s before it is '
+               'decoded: encoder output ending in those octets is not '
+               'accepted as sent' % '; '.join(sorted(set(edits))[:2]),
                site='pamqp/frame.py::unmarshal')
     chk.floor('C20.D', 5, 'decoder facts')
